@@ -10,7 +10,8 @@ Written branch for branch after the source, generic in the scalar: `α = ℚ` wi
 reading the theorems of `JF/Props/C15.lean` talk about, `α = Float` with `Ops.float` / `Ops.floatK` is what the
 driver runs bit for bit against the real classes.
 
-Python `%` on floats is `JF.pymod` (CPython `float_rem`).  Error outcomes of the real code (`AttributeError` of the
+Python `%` on floats is `JF.pymod` (CPython `float_rem`); `correct_position_entry` (as repaired in /repo commit
+"fix: correct_position_entry returned the system length itself …") is `JF.pywrap`.  Error outcomes of the real code (`AttributeError` of the
 setters, `IndexError` of tuple/list indexing) are explicit `none` / `Except.error` results.
 -/
 namespace JF.Periodic
@@ -67,15 +68,18 @@ def Cuboid.init (o : Ops α) (dim : Int) (Ls : List α) : Except String (Cuboid 
 
 /-! ### the two scalar mechanisms -/
 
-/-- `x % L` -/
-def wrap (o : Ops α) (x L : α) : α := pymod o x L
+/-- `corrected_entry = x % L; return corrected_entry if corrected_entry != L else 0.0` (`JF.pywrap`): the float modulo
+rounds to `L` itself for tiny negative `x`; that single value is mapped to `0.0`, everything else (nan included: `!=`)
+is the plain `x % L` -/
+def wrap (o : Ops α) (x L : α) : α := pywrap o x L
 
 /-- `(s + L/2) % L - L/2` with the precomputed half length `h` -/
 def wrapSep (o : Ops α) (s L h : α) : α := pymod o (s + h) L - h
 
 /-! ### `HypercubicPeriodicBoundaries` -/
 
-/-- `correct_position_entry(position_entry, _)`: `position_entry % system_length` (index ignored) -/
+/-- `correct_position_entry(position_entry, _)`: `r = position_entry % system_length; r if r != system_length else 0.0`
+(index ignored) -/
 def Cubic.correctPositionEntry (o : Ops α) (c : Cubic α) (x : α) (_i : Int) : α := wrap o x c.L
 
 /-- `correct_position(position)`: every entry of the sequence (whatever its length), in place -/
@@ -106,7 +110,8 @@ def Cubic.nextImage (c : Cubic α) (x : α) (_d : Int) : α := x + c.L
 
 /-! ### `HypercuboidPeriodicBoundaries` -/
 
-/-- `correct_position_entry(position_entry, index)`: `position_entry % system_lengths[index]` -/
+/-- `correct_position_entry(position_entry, index)`: `r = position_entry % system_lengths[index];
+r if r != system_lengths[index] else 0.0` (the length is looked up for the modulo first: `IndexError` as before) -/
 def Cuboid.correctPositionEntry (o : Ops α) (c : Cuboid α) (x : α) (i : Int) : Option α := do
   let L ← pyGet c.Ls i
   pure (wrap o x L)
